@@ -232,6 +232,11 @@ func (e *Engine) callFn(s *State, f *Frame, x ssa.Value, fn *ssa.Function, bind 
 		e.setRes(f, x, e.opaqueResult(s, fn.Signature.Results(), fn.Name()))
 		return nil, false
 	}
+	// generated protobuf String() methods are only used for log messages
+	if fn.Name() == "String" && fn.Signature.Params().Len() == 0 && strings.HasSuffix(e.fset.Position(fn.Pos()).Filename, ".pb.go") {
+		e.setRes(f, x, Str{Kind: 1, Atom: e.freshVar(s, "pbstring", BVS(64))})
+		return nil, false
+	}
 	// 5. transparent packages: execute the body
 	if e.transparentPkg(pkgPath) || e.isGeneratedGetter(fn) {
 		if len(fn.Blocks) == 0 {
